@@ -240,6 +240,10 @@ def escape_grid(full):
     for t in tails:
         bodies.append('\\' + t)
         bodies.append('a\\' + t + 'b')
+        # characters of every UTF-8 / UTF-16 width before the escape, so
+        # that a position computed on some encoded form shows up
+        bodies.append('\u65e5\u672c\u8a9e\\' + t)
+        bodies.append('\u20ac \U0001f600\u00e9\\' + t + '\u00fc')
         if full:
             bodies.append('\\\\' + t)
             bodies.append('\\' + t + '\\')
